@@ -7,7 +7,7 @@ use super::sendbody::{send_body_call, send_body_flow};
 use crate::engine::{guarded, pattern, Report, Tier, Violation};
 use crate::refmodel::chunked::decode_strict;
 
-pub const RULE: &str = "chunked: every output length b in 6..=11000 and +-12 around k*10248 (k<=3) x input lengths {1..=64 (thorough 1..=320), 100, 255..257, 1000, 4095..4097, 10239..10241, 20480, 20481, 30000} u {b-6..=b+2}, each pair one real write on a fresh writer (Flow and Call front ends); sized: b,i in 1..=300; plus whole-body caller loops with a fixed buffer. distinct = distinct (mode, consumed==input, chunks emitted, hex digits) classes";
+pub const RULE: &str = "chunked: every output length b in 6..=11000 and +-12 around k*10248 (k<=3) x input lengths {1..=64 (thorough 1..=320), 100, 255..257, 1000, 4095..4097, 10239..10241, 20480, 20481, 30000} u {b-6..=b+2}, each pair one real write on a fresh writer (front ends: Flow of a POST, Call, Flow of a DELETE with send-body-despite-method); sized: b,i in 1..=300, plus fixed-buffer loops with Content-Length around 2^32, 2^33, 2^40, u64::MAX; plus whole-body caller loops with a fixed buffer. distinct = distinct (mode, consumed==input, chunks emitted, hex digits) classes";
 
 fn bs() -> Vec<usize> {
     let mut v: Vec<usize> = (6..=11000).collect();
@@ -42,6 +42,9 @@ fn write_once(i: usize, b: usize, front: &str, input: &[u8]) -> Result<(usize, S
         let mut out = vec![0u8; b];
         let r = if front == "flow" {
             let mut f = send_body_flow(None);
+            f.write(&input[..i], &mut out)
+        } else if front == "flow-despite" {
+            let mut f = super::sendbody::send_body_flow_despite("DELETE");
             f.write(&input[..i], &mut out)
         } else {
             let mut c = send_body_call(None);
@@ -133,6 +136,37 @@ fn row(b: usize, tier: Tier, front: &str, input: &[u8], rep: &mut Report) {
     }
 }
 
+/// Length-delimited progress must not depend on how much is left: huge remaining lengths.
+fn sized_huge(rep: &mut Report) {
+    let input = pattern(2048);
+    for cl in [(1u64 << 32) - 1, 1u64 << 32, (1u64 << 32) + 1, (1u64 << 32) + 5000, 1u64 << 33, 3u64 << 32, 1u64 << 40, u64::MAX] {
+        let r = guarded(|| {
+            let mut f = send_body_flow(Some(cl));
+            let mut out = vec![0u8; 1000];
+            // a caller loop with a fixed 1000-byte buffer, 8 rounds
+            for round in 0..8 {
+                let (c, p) = f.write(&input[..1500], &mut out).map_err(|e| format!("{:?}", e))?;
+                if c != 1000 || p != 1000 {
+                    return Ok::<_, String>(Some(format!("Content-Length {}: round {} of a fixed-buffer loop moved ({}, {}) instead of 1000", cl, round, c, p)));
+                }
+            }
+            let (c, _) = f.write(&input[..1], &mut out[..1]).map_err(|e| format!("{:?}", e))?;
+            if c != 1 {
+                return Ok(Some(format!("Content-Length {}: 1-byte write consumed {}", cl, c)));
+            }
+            Ok(None)
+        });
+        rep.evaluations += 1;
+        rep.transitions += 9;
+        match r {
+            Ok(Ok(None)) => rep.distinct_hash(&("sized-huge", cl)),
+            Ok(Ok(Some(w))) => rep.violation(Violation { key: "C19:sized:sized-progress-huge".into(), ord: 80_000_000, what: w, replay: json!({"kind": "sized-huge"}) }),
+            Ok(Err(e)) => rep.violation(Violation { key: "C19:sized:write-error".into(), ord: 80_000_000, what: format!("Content-Length {}: {}", cl, e), replay: json!({"kind": "sized-huge"}) }),
+            Err(p) => rep.violation(Violation { key: format!("C19:sized:panic:{}", crate::engine::panic_site(&p)), ord: 80_000_000, what: p, replay: json!({"kind": "sized-huge"}) }),
+        }
+    }
+}
+
 fn sized_pair(i: usize, b: usize, input: &[u8]) -> Option<(String, String)> {
     let r = guarded(|| {
         let mut f = send_body_flow(Some(1000));
@@ -200,12 +234,16 @@ const LOOP_LS: [usize; 8] = [1, 5, 6, 64, 100, 1000, 10241, 25000];
 pub fn run(tier: Tier) -> Report {
     let input = pattern(31000);
     let bs = bs();
-    let fronts: &[&str] = &["flow", "call"];
+    let fronts: &[&str] = &["flow", "call", "flow-despite"];
     let mut jobs: Vec<(usize, &str)> = Vec::new();
     for f in fronts {
         for &b in &bs {
             // the single-call front end shares the writer; in the quick tier it gets every 7th row
             if *f == "call" && !tier.thorough() && b % 7 != 0 && b > 64 {
+                continue;
+            }
+            // the despite-method route shares the writer as well: every 13th row (all rows when thorough)
+            if *f == "flow-despite" && !tier.thorough() && b % 13 != 0 && b > 40 {
                 continue;
             }
             jobs.push((b, f));
@@ -255,6 +293,7 @@ pub fn run(tier: Tier) -> Report {
     for p in sized {
         rep.merge(p);
     }
+    sized_huge(&mut rep);
     // whole-body loops
     let mut loops: Vec<(usize, usize, bool)> = Vec::new();
     for b in (6..=64).chain(LOOP_BS) {
@@ -305,6 +344,11 @@ pub fn replay(v: &Value) -> Result<Option<String>, String> {
             let mut rep = Report::new();
             row(b, tier, &front, &input, &mut rep);
             Ok(rep.violations.into_iter().next().map(|(k, (_, v))| format!("[{}] {}", k, v.what)))
+        }
+        "sized-huge" => {
+            let mut r = Report::new();
+            sized_huge(&mut r);
+            Ok(r.violations.into_iter().next().map(|(k, (_, v))| format!("[{}] {}", k, v.what)))
         }
         "sized" => Ok(sized_pair(v["i"].as_u64().ok_or("i")? as usize, v["b"].as_u64().ok_or("b")? as usize, &input).map(|(k, w)| format!("[{}] {}", k, w))),
         "loop" => Ok(body_loop(v["l"].as_u64().ok_or("l")? as usize, v["b"].as_u64().ok_or("b")? as usize, v["chunked"].as_bool().ok_or("chunked")?).map(|(k, w)| format!("[{}] {}", k, w))),
